@@ -89,6 +89,8 @@ def enc_value(valset, v):
         return ['txt%d' % v, v + 0.5, b'\x00\xff' + str(v).encode(), v][v % 4]
     if valset == 'func':          # pickled by dill: a function object (compared by what it computes)
         return _mkfunc(v)
+    if valset == 'mainfunc':      # a function defined in THIS process's __main__ (as an interactive user's would be)
+        return _mkmainfunc(v)
     raise ValueError(valset)
 
 
@@ -101,6 +103,18 @@ def _mkfunc(v):
         exec('def stored_function():\n    return %d\n' % v, ns)
         _FUNCS[v] = ns['stored_function']
     return _FUNCS[v]
+
+
+def _mkmainfunc(v):
+    """def main_fn_<v>_<pid>(): return v  - in the namespace of __main__, under a name only this process has: a pickler
+    that stores functions by reference writes something no other process can read"""
+    main = sys.modules['__main__']
+    name = 'main_fn_%d_%d' % (v, os.getpid())
+    if not hasattr(main, name):
+        ns = {'__name__': '__main__'}
+        exec('def %s():\n    return %d\n' % (name, v), ns)
+        setattr(main, name, ns[name])
+    return getattr(main, name)
 
 
 def dec_value(valset, x, kid=0):
@@ -133,7 +147,7 @@ def dec_value(valset, x, kid=0):
                 cand = int(x[2:].decode())
             else:
                 cand = x
-        elif valset == 'func':
+        elif valset in ('func', 'mainfunc'):
             cand = x()
         else:
             return -8
@@ -141,6 +155,8 @@ def dec_value(valset, x, kid=0):
             return -8
         if valset == 'func':
             return cand if callable(x) and x.__name__ == 'stored_function' else -8
+        if valset == 'mainfunc':
+            return cand if callable(x) and x.__name__.startswith('main_fn_%d_' % cand) else -8
         ref = enc_value(valset, cand)
         if type(ref) is not type(x) or ref != x:
             return -8
@@ -154,7 +170,7 @@ def valsets_for(backend):
     if base in ('dict', 'null'):
         return ['int', 'rich', 'func', 'nonev']
     if base in ('file', 'dir', 'dir-fast', 'dir-compressed'):
-        return ['int', 'rich', 'func', 'nonev'] if base in ('file', 'dir') else ['int', 'rich', 'nonev']
+        return ['int', 'rich', 'func', 'mainfunc', 'nonev'] if base in ('file', 'dir') else ['int', 'rich', 'nonev']
     if base in ('file-json', 'dir-json'):
         return ['int', 'json', 'nonev']
     if base in ('file-py', 'dir-py'):
